@@ -796,10 +796,12 @@ pub fn gen_inline_case(rng: &mut Rng, max_lines: usize) -> TextCase {
             }
             1 => {
                 // replaced block: 1..=3 old lines vs 1..=3 new lines sharing words
-                let a = 1 + rng.usize(3);
-                let b = 1 + rng.usize(3);
+                // rarely a big block (more than 32 lines on a side)
+                let big = rng.chance(1, 25);
+                let a = if big { 28 + rng.usize(40) } else { 1 + rng.usize(3) };
+                let b = if big { 28 + rng.usize(40) } else { 1 + rng.usize(3) };
                 let mut pool = words.clone();
-                for _ in 0..a {
+                for _ in 0..a.min(3) {
                     let ne = rng.usize(3);
                     let extra = iline(rng, ne);
                     pool.extend(extra);
@@ -807,7 +809,7 @@ pub fn gen_inline_case(rng: &mut Rng, max_lines: usize) -> TextCase {
                 let mut take = |rng: &mut Rng, pool: &Vec<String>| -> Vec<String> {
                     let mut ws = Vec::new();
                     let start = rng.usize(pool.len());
-                    let len = 1 + rng.usize(pool.len());
+                    let len = 1 + rng.usize(pool.len().min(if big { 4 } else { 12 }));
                     for t in 0..len.min(pool.len()) {
                         let mut w = pool[(start + t) % pool.len()].clone();
                         if rng.chance(1, 5) {
@@ -889,5 +891,15 @@ pub fn gen_unique_heavy(rng: &mut Rng, blocks: usize) -> (Vec<u32>, Vec<u32>) {
             }
         }
     }
+    (old, new)
+}
+
+
+/// Two sequences over disjoint alphabets (no item of one equals an item of
+/// the other), each side with repeats.
+pub fn gen_disjoint(rng: &mut Rng, n: usize, m: usize) -> (Vec<u32>, Vec<u32>) {
+    let a = 1 + rng.below(40) as u32;
+    let old = (0..n).map(|_| rng.below(a as u64) as u32).collect();
+    let new = (0..m).map(|_| 5000 + rng.below(a as u64) as u32).collect();
     (old, new)
 }
